@@ -1025,8 +1025,12 @@ lua_statements = [
         ],
     ),
     dict(
+        # A std::string, not a char pointer which would
+        # select a bool overload of the function.
         name="lua_string_&_in",
-        base="lua_string_*_in",
+        pre_call=[
+            "std::string {c_var}(\t{pop_expr});",
+        ],
     ),
     dict(
         name="lua_string_scalar_result",
